@@ -319,6 +319,18 @@ func visitInstr(fr *frame, instr ssa.Instruction) continuation {
 		default:
 			panic(fmt.Sprintf("unexpected x type in IndexAddr: %T", x))
 		}
+		if len(cells) > 0 && i.ps.ufTables != nil {
+			if name, ok := i.ps.ufTables[&cells[0]]; ok && onlyLoaded(instr) {
+				// a table declared uninterpreted by the harness: every look-up is T(index)
+				c := i.ps.ctx
+				t := i.term(idx)
+				if !i.branchCheck(fr, c.Cmp(smt.OpBvUlt, i.idx64(t, kindSigned(basicOf(instr.Index.Type()).Kind())), c.Const(uint64(len(cells)), 64)), "index") {
+					panic(runtimeErr("index out of range"))
+				}
+				fr.set(instr, &ufref{name: name, arg: c.Extract(t, 7, 0)})
+				break
+			}
+		}
 		if s, ok := idx.(sym); ok {
 			if onlyLoaded(instr) && len(cells) <= 512 {
 				fr.set(instr, &symref{cells: cells, idx: s.t, signed: kindSigned(basicOf(instr.Index.Type()).Kind())})
